@@ -162,26 +162,96 @@ def run(cx):
     last = mw.body[-1]
     ok = isinstance(last, ast.Raise) and call_name(last.exc) == "ParsingError"
     cx.ob("R03c", last, ok, "when nothing can be tried any more a ParsingError is raised" if ok else "the loop body does not end by raising ParsingError")
-    # rollback scan decreases
+    # ---- roll-back: the entry the stack is cut at has an untried alternative, and the search for it terminates.
+    # Recognised: an inline downward scan (while rollback_point >= 0: .. break .. rollback_point -= 1), or a helper called as
+    # `rollback_point = self.<helper>(parse_stack)` that walks the stack from the top and returns the position / -1.
+    def untried_test(e, pol):
+        """Is the fact `e` (with polarity) equivalent to  <entry>.cur_prod_id <= len(<entry>.prod_rs) - 2 ?  -> True / False / None"""
+        if not (isinstance(e, ast.Compare) and len(e.ops) == 1):
+            return None
+
+        def atom(x):
+            if isinstance(x, ast.Attribute) and x.attr == "cur_prod_id":
+                return "c"
+            if isinstance(x, ast.Call) and call_name(x) == "len" and x.args and isinstance(x.args[0], ast.Attribute) and x.args[0].attr == "prod_rs":
+                return "L"
+            return None
+        from sa.poly import linear as _lin
+        a, b = _lin(e.left, atom=atom), _lin(e.comparators[0], atom=atom)
+        if a is None or b is None:
+            return None
+        d = {k: a.get(k, 0) - b.get(k, 0) for k in set(a) | set(b)}
+        d = {k: v for k, v in d.items() if v != 0}
+        if set(d) - {1} != {"c", "L"} or d.get("c") != -d.get("L") or abs(d["c"]) != 1:
+            return None
+        op = type(e.ops[0])
+        if not pol:
+            op = {ast.Lt: ast.GtE, ast.GtE: ast.Lt, ast.Gt: ast.LtE, ast.LtE: ast.Gt}.get(op)
+        if op is None:
+            return None
+        k = d.get(1, 0)
+        if d["c"] == -1:     # -(c - L) + k  op 0   ->   c - L  op'  k
+            op = {ast.Lt: ast.Gt, ast.Gt: ast.Lt, ast.LtE: ast.GtE, ast.GtE: ast.LtE}[op]
+            k = k
+        else:
+            k = -k
+        # now:  c - L  op  k
+        bound = {ast.Lt: k - 1, ast.LtE: k}.get(op)   # c - L <= bound
+        if bound is None:
+            return False
+        return bound == -2
     scans = [w for w in ast.walk(mw) if isinstance(w, ast.While) and w is not mw]
-    for w in scans:
-        v = norm(w.test.left) if isinstance(w.test, ast.Compare) else None
-        dec = any(isinstance(s, ast.AugAssign) and norm(s.target) == v and isinstance(s.op, ast.Sub) and const(s.value, int) and s.value.value >= 1 and parent(s) is w for s in w.body)
-        ok = v is not None and isinstance(w.test.ops[0], ast.GtE) and dec
-        cx.ob("R03c", w, ok, "the roll-back scan moves strictly down the stack" if ok else "roll-back scan may not terminate")
-    # rollback applies the next alternative on the truncated stack
     sw = [c for c in ast.walk(mw) if isinstance(c, ast.Call) and call_name(c) == "switch_to_next_prod"]
     ok = len(sw) == 1 and norm(sw[0].func.value) == "parse_stack[-1]"
+    rp = None
     if ok:
         blk = parent(enclosing_stmt(sw[0])).body
-        i = blk.index(enclosing_stmt(sw[0]))
-        ok = i > 0 and norm(blk[i - 1]) == "parse_stack = parse_stack[:rollback_point + 1]"
-        g = {(norm(e), pol) for e, pol in facts(sw[0])}
-        ok = ok and ("rollback_point >= 0", True) in g
+        i2 = blk.index(enclosing_stmt(sw[0]))
+        cut = blk[i2 - 1] if i2 > 0 else None
+        ok = isinstance(cut, ast.Assign) and is_name(cut.targets[0], "parse_stack") and isinstance(cut.value, ast.Subscript) and is_name(cut.value.value, "parse_stack") \
+            and isinstance(cut.value.slice, ast.Slice) and cut.value.slice.lower is None and isinstance(cut.value.slice.upper, ast.BinOp) \
+            and isinstance(cut.value.slice.upper.op, ast.Add) and isinstance(cut.value.slice.upper.left, ast.Name) and const(cut.value.slice.upper.right, int) and cut.value.slice.upper.right.value == 1
+        if ok:
+            rp = cut.value.slice.upper.left.id
+            g = {(norm(e), pol) for e, pol in facts(sw[0])}
+            ok = (f"{rp} >= 0", True) in g or (f"{rp} < 0", False) in g or (f"{rp} > -1", True) in g or (f"{rp} != -1", True) in g
     cx.ob("R03c", sw[0] if sw else mw, ok, "roll-back cuts the stack at the entry with an untried alternative and advances it" if ok else "roll-back does not truncate to the rollback point and switch its alternative")
-    brk = [b for b in ast.walk(mw) if isinstance(b, ast.Break) and scans and enclosing_loops(b)[0] is scans[0]]
-    ok = len(brk) == 1 and any("cur_prod_id < len(" in norm(e) and pol for e, pol in facts(brk[0]))
-    cx.ob("R03c", brk[0] if brk else mw, ok, "the roll-back point has an untried alternative" if ok else "roll-back point selection altered")
+    if rp is not None:
+        defs = [(st, v) for st, v in assignments(parse, rp) if v is not None]
+        helper = None
+        for st, v in defs:
+            if isinstance(v, ast.Call) and isinstance(v.func, ast.Attribute) and is_name(v.func.value, "self", "cls") and repo.has(REL, f"LLParser.{v.func.attr}"):
+                helper = cx.func(REL, f"LLParser.{v.func.attr}", "R03c")
+        if helper is not None:
+            # helper form: every `return <non-constant>` is under the untried test on the entry at that position; other returns are -1;
+            # the walk is a for over a range (terminates)
+            rets = [r for r in walk_local(helper) if isinstance(r, ast.Return)]
+            pos_rets = [r for r in rets if r.value is not None and not (isinstance(r.value, ast.UnaryOp) or const(r.value))]
+            neg_rets = [r for r in rets if r not in pos_rets]
+            okh = bool(pos_rets) and all(isinstance(r.value, ast.UnaryOp) and const(r.value.operand, int) and r.value.operand.value == 1 for r in neg_rets) and bool(neg_rets)
+            verdicts = []
+            for r in pos_rets:
+                vs = [untried_test(e, pol) for e, pol in facts(r)]
+                verdicts.append(True if True in vs else False if False in vs else None)
+            loops_h = [l for l in walk_local(helper) if isinstance(l, (ast.For, ast.While))]
+            if not okh or None in verdicts or not loops_h or any(isinstance(l, ast.While) for l in loops_h):
+                raise AnalysisError("R03c", f"{REL}::LLParser.{helper.name}", "roll-back point helper not recognised")
+            cx.ob("R03c", helper, all(verdicts), "the roll-back point (found by a helper walking a finite range) has an untried alternative" if all(verdicts) else
+                  "the helper returns a stack position whose entry may have no untried alternative")
+        else:
+            for w in scans:
+                v = norm(w.test.left) if isinstance(w.test, ast.Compare) else None
+                dec = any(isinstance(s_, ast.AugAssign) and norm(s_.target) == v and isinstance(s_.op, ast.Sub) and const(s_.value, int) and s_.value.value >= 1 and parent(s_) is w for s_ in w.body)
+                okw = v is not None and isinstance(w.test.ops[0], ast.GtE) and dec
+                cx.ob("R03c", w, okw, "the roll-back scan moves strictly down the stack" if okw else "roll-back scan may not terminate")
+            brk = [b for b in ast.walk(mw) if isinstance(b, ast.Break) and scans and enclosing_loops(b)[0] is scans[0]]
+            if len(brk) != 1:
+                raise AnalysisError("R03c", f"{REL}::LLParser.parse", "roll-back scan not recognised")
+            vs = [untried_test(e, pol) for e, pol in facts(brk[0])]
+            if True not in vs and False not in vs:
+                raise AnalysisError("R03c", f"{REL}::LLParser.parse", "test selecting the roll-back point not recognised")
+            cx.ob("R03c", brk[0], True in vs, "the roll-back point has an untried alternative" if True in vs else
+                  "the scan stops at an entry that may have no untried alternative (switching it runs past its last production)")
     # push uses the alternatives of the table and the current cursor
     ps = [c for c in ast.walk(mw) if isinstance(c, ast.Call) and call_name(c) == "_StackElement"]
     ok = len(ps) == 1 and [norm(a) for a in ps[0].args] == ["cur_symbol", "top.cur_token_pos", "prods"]
